@@ -154,7 +154,7 @@ AllOps(P) == UNION {{<<t, k, i>> : i \in 1..Len(P.tasks[t].segs[k].ops)} : <<t, 
                      UNION {{<<t, k>> : k \in 1..Len(P.tasks[t].segs)} : t \in 1..NTasks(P)}}
 OpAt(P, x) == P.tasks[x[1]].segs[x[2]].ops[x[3]]
 NoNestKind(P) == \A k \in 1..Len(P.kinds) : P.kinds[k].flush # "nest"
-YieldOnly(P) == NoNestKind(P) /\ \A x \in AllOps(P) : OpAt(P, x).o \notin {"sync", "ival"}
+YieldOnly(P) == NoNestKind(P) /\ \A x \in AllOps(P) : OpAt(P, x).o \notin {"sync", "ival", "cancelb", "fail"}
 HasCtxType(P, ty) == \E c \in 1..Len(P.ctxs) : P.ctxs[c].type = ty
 NoFaultyCtx(P) == \A c \in 1..Len(P.ctxs) : P.ctxs[c].faulty = "-"
 NoSpawnKind(P) == \A k \in 1..Len(P.kinds) : P.kinds[k].flush \notin {"spawn", "throw", "nest"}
@@ -163,6 +163,7 @@ NoThrowKind(P) == \A k \in 1..Len(P.kinds) : P.kinds[k].flush # "throw"
 \* an exception raised by BatchBase.flush() itself (31000 + kind)
 IsEscape(v) == IsX(v) /\ (v.n = 80000 \/ (v.n >= 31000 /\ v.n < 32000))
 NoStackLimit(P) == "maxstack" \notin DOMAIN P
+NoKillOps(P) == \A x \in AllOps(P) : OpAt(P, x).o \notin {"cancelb", "fail"}      \* nobody completes batches / tasks from outside
 NoBaseRaise(P) == \A t \in 1..Len(P.tasks) : \A k \in 1..Len(P.tasks[t].segs) : P.tasks[t].segs[k].term.k \notin {"raiseb", "raisec"}
 \* the value a scoped variable / attribute has outside every override (the last scoped value holds None, written -1)
 SvDefault(P, i) == IF i = P.nvars /\ P.nvars >= 2 THEN 0 - 1 ELSE 0
@@ -170,7 +171,7 @@ HasDedup(P, t) == "dedup" \in DOMAIN P.tasks[t]
 NoDedup(P) == \A t \in 1..Len(P.tasks) : ~HasDedup(P, t)
 \* (function, normalised arguments, binding: plain function / method of instance 1 or 2 / static method); one thread
 DedupKey(P, t) == <<P.tasks[t].dedup.fn, P.tasks[t].dedup.key, P.tasks[t].dedup.bind>>
-SeqDomain(P) == NoFaultyCtx(P) /\ ~HasCtxType(P, "nonasync") /\ NoSpawnKind(P) /\ NoStackLimit(P) /\ NoDedup(P)   \* where sequential evaluation is the oracle
+SeqDomain(P) == NoFaultyCtx(P) /\ ~HasCtxType(P, "nonasync") /\ NoSpawnKind(P) /\ NoStackLimit(P) /\ NoDedup(P) /\ NoKillOps(P)   \* where sequential evaluation is the oracle
 
 (* every task is named at most once (as T leaf or sync target) in the whole program *)
 TaskRefs(P) ==     \* sequence of referenced task ids, with repetitions
